@@ -98,8 +98,10 @@ pub fn make_small_case(seed: u64, idx: u64) -> (Case, Rng) {
 pub fn make_case(seed: u64, idx: u64, tier: Tier, restarts: bool) -> (Case, Rng) {
     let mut r = Rng::new(seed).derive(idx.wrapping_mul(7919) + 1);
     let mut fan = 0;
+    let mut flip_family = false;
     let prog = if idx % 5 == 4 {
         let which = r.below(7);
+        flip_family = which == 6;
         let scale = match which {
             // (1 = projection fan over one firewall, each projection with its own consumer: the
             // fan crosses the chunking of the backward projection, 4 x available_parallelism)
@@ -129,8 +131,70 @@ pub fn make_case(seed: u64, idx: u64, tier: Tier, restarts: bool) -> (Case, Rng)
         par: r.chance(1, 3),
         late_inputs: true,
     };
-    let history = gen_history(&mut r, &prog, &hp);
+    let mut history = gen_history(&mut r, &prog, &hp);
+    if flip_family && r.chance(1, 2) {
+        if let Some(h) = tfc_flip_history(&mut r, &prog) {
+            history = h;
+        }
+    }
     (Case { prog: Arc::new(prog), history, fan }, r)
+}
+
+/// Directed history for the conditional-firewall chain family (`gen_family` 6): the leaf is
+/// moved onto the firewall branch, off it and onto it again by edits that leave its value
+/// unchanged (so everything above it is cleaned, never recomputed), one node of the chain is
+/// requested after every edit, and then the input behind the firewall changes. Random histories
+/// produce this "A, B, A, then a change behind A" order only a few times in 19 200 cases (it is
+/// what the defect repaired by 45842a5 needed); here the values are searched for with the
+/// reference evaluator.
+fn tfc_flip_history(r: &mut Rng, prog: &crate::model::Program) -> Option<Vec<Step>> {
+    use crate::eng::{QMode, Write};
+    use crate::model::{nid, Eval, Kind};
+    use std::collections::HashMap;
+    let leaf = nid(Kind::N, 0);
+    let chain: Vec<crate::model::NodeId> = prog.nodes.keys().copied().filter(|n| n.kind == Kind::N && n.idx >= 2).collect();
+    if chain.is_empty() {
+        return None;
+    }
+    let (ins, _) = crate::model::inputs_of(prog);
+    let ev = |a: i64, u: i64, w: i64, n: crate::model::NodeId| -> (i64, bool) {
+        let inputs: HashMap<u32, i64> = [(0, a), (1, u), (2, w)].into_iter().collect();
+        let mut xc = HashMap::new();
+        let cells = HashMap::new();
+        let mut e = Eval::new(prog, &inputs, &mut xc, &cells, false);
+        let v = e.eval(n);
+        let on_firewall = e.reads.get(&leaf).is_some_and(|rs| rs.iter().any(|(d, _)| d.kind == Kind::F));
+        (v, on_firewall)
+    };
+    for _ in 0..400 {
+        let (a, b, u, u2, w) = (r.range(-3, 6), r.range(-3, 6), r.range(-3, 6), r.range(-3, 6), r.range(-3, 6));
+        let top = chain[r.usize_below(chain.len())];
+        let (la, fa) = ev(a, u, w, leaf);
+        let (lb, fb) = ev(b, u, w, leaf);
+        if !(fa && !fb && la == lb) || ev(a, u, w, top).0 == ev(a, u2, w, top).0 {
+            continue;
+        }
+        let sess = |ws: Vec<Write>| Step::Session { cells: vec![], writes: ws, commit: true };
+        let ask = |n: crate::model::NodeId| Step::Query { roots: vec![n], mode: QMode::Seq };
+        let mut first = vec![Write::Set(0, a), Write::Set(1, u)];
+        if ins.contains(&2) {
+            first.push(Write::Set(2, w));
+        }
+        let mut h = vec![sess(first), ask(top)];
+        // one or two round trips off and back onto the firewall branch
+        for _ in 0..1 + r.usize_below(2) {
+            h.push(sess(vec![Write::Set(0, b)]));
+            h.push(ask(top));
+            h.push(sess(vec![Write::Set(0, a)]));
+            h.push(ask(top));
+        }
+        h.push(sess(vec![Write::Set(1, u2)]));
+        h.push(ask(top));
+        let all: Vec<crate::model::NodeId> = prog.nodes.keys().copied().collect();
+        h.push(Step::Query { roots: all, mode: QMode::Seq });
+        return Some(h);
+    }
+    None
 }
 
 pub fn run_on<B: Backend>(b: &B, case: &Case, cfg: &CaseCfg) -> Result<RunOutcome, String> {
